@@ -26,8 +26,7 @@ class PulseAtoms:
     @staticmethod
     def sine(freq, ampl, off, phase, SR, npts):
         time = np.linspace(0, npts / SR, int(npts), endpoint=False)
-        freq *= 2 * np.pi
-        return ampl * np.sin(freq * time + phase) + off
+        return ampl * np.sin(2 * np.pi * freq * time + phase) + off
 
     @staticmethod
     def ramp(start, stop, SR, npts):
